@@ -26,10 +26,20 @@ def main():
             env = dict(os.environ, VERIF_REPO=wt, VERIF_EVIDENCE_DIR=scratch, VERIF_REPLAY_DIR=scratch)
             p = subprocess.run(["python3-vt", "checks/check.py", pid, "--tier", tier], cwd=ROOT, env=env, capture_output=True, text=True)
             lines = [l for l in p.stdout.splitlines() if l.startswith(("VIOLATION", "UNDECIDED", "OK", "KNOWN"))]
-            out[pid] = dict(rc=p.returncode, lines=lines[:6])
-            print(pid, "rc=%d" % p.returncode)
-            for l in lines[:6]:
-                print("   ", l[:260])
+            viol = [l for l in lines if l.startswith("VIOLATION")]
+            ded = [l for l in viol if "-bounded-" not in l]
+            bnd = [l for l in viol if "-bounded-" in l]
+            try:
+                ev = json.load(open(os.path.join(scratch, pid + ".json")))
+                refuted = ev["coverage"].get("refuted", [])
+            except Exception:
+                refuted = []
+            out[pid] = dict(rc=p.returncode, deductive=len(refuted), bounded=len(bnd), refuted=refuted[:4])
+            print(pid, "rc=%d deductive_obligations_failed=%d bounded_failures=%d" % (p.returncode, len(refuted), len(bnd)))
+            for r in refuted[:3]:
+                print("    obligation:", r)
+            for l in (bnd[:2] + [l for l in lines if not l.startswith("VIOLATION")][:3]):
+                print("   ", l[:220])
             shutil.rmtree(scratch, ignore_errors=True)
     finally:
         subprocess.call(["git", "-C", "/repo", "worktree", "remove", "--force", wt])
